@@ -24,6 +24,8 @@ pub struct Instant {
 /// Panics if the number of seconds
 /// would overflow when converted to nanoseconds.
 impl Instant {
+    #[cfg_attr(kani, kani::requires(nanos < 1_000_000_000))]
+    #[cfg_attr(kani, kani::ensures(|r: &Self| r.seconds == seconds && r.nanos == nanos))]
     pub fn new(seconds: u64, nanos: u32) -> Self {
         if nanos >= NANOS_PER_SEC {
             panic!("nanos must be less than {}", NANOS_PER_SEC);
@@ -33,6 +35,8 @@ impl Instant {
 }
 
 impl From<SystemTime> for Instant {
+    #[cfg_attr(kani, kani::requires(time >= SystemTime::UNIX_EPOCH))]
+    #[cfg_attr(kani, kani::ensures(|r: &Self| r.nanos < 1_000_000_000 && SystemTime::UNIX_EPOCH.checked_add(std::time::Duration::new(r.seconds, r.nanos)) == Some(time)))]
     fn from(time: SystemTime) -> Self {
         let duration = time.duration_since(SystemTime::UNIX_EPOCH).unwrap();
         let seconds = duration.as_secs();
@@ -42,6 +46,8 @@ impl From<SystemTime> for Instant {
 }
 
 impl From<Instant> for SystemTime {
+    #[cfg_attr(kani, kani::requires(time.nanos < 1_000_000_000 && time.seconds <= i64::MAX as u64))]
+    #[cfg_attr(kani, kani::ensures(|r: &Self| r.duration_since(SystemTime::UNIX_EPOCH).ok() == Some(std::time::Duration::new(time.seconds, time.nanos))))]
     fn from(time: Instant) -> Self {
         SystemTime::UNIX_EPOCH + std::time::Duration::new(time.seconds, time.nanos)
     }
